@@ -125,7 +125,7 @@ fn build(ch: &mut Chooser, fmt: &str, s: &str) -> (Vec<u8>, String) {
             let book = ods::OBook { sheets: vec![ods::OSheet { name: "S".into(), display: None, rows: vec![
                 ods::ORow { cells: vec![(ods::OCell::new(ods::OVal::StrContent(SENTINEL.into(), ods::SpaceMode::TextS, false)), 1)], repeat: 1 },
                 ods::ORow { cells: vec![(ods::OCell::empty(), 1), ({ let mut c = ods::OCell::new(val); c.annotation = annotated; c }, 1)], repeat: 1 },
-            ] }], indent: ch.flag("ods.document-indented"), ..Default::default() };
+            ] }], indent: ch.flag("ods.document-indented"), row_wrappers: ch.choose("ods.row-grouping-elements", 4) as u8, cell_attr_order: ch.choose("ods.cell-attribute-order", 3) as u8, ..Default::default() };
             (ods::write(&book, Method::Deflated), format!("ods storage={storage}{}", if annotated { " annotated" } else { "" }))
         }
     }
@@ -173,7 +173,9 @@ fn run_case(rep: &Report, ch: &mut Chooser, fmt: &str, s: &str, local: &mut Vec<
 
 pub fn check(rep: &Report) {
     let t = crate::thorough(&rep.tier);
-    rep.rule("strings = every concatenation of <= 3 atoms from {a, space, two spaces, tab, LF, &, <, >, \", ', ]]>, e-acute, euro, U+1F600} plus \"\" and one 32767-character string; storage forms: xlsx shared/inline/formula-string x entities/decimal/hex character references/CDATA x {plain t, 1-3 rich runs, rPh + phoneticPr} x empty <si/> before/between x namespace prefix; xlsb Isst (plain/rich/phonetic)/St/FmlaString; xls SST (plain/rich/ExtRst)/LABEL/STRING x 8/16-bit; ods content with text:s variants, literal spaces, spans, paragraphs, or string-value attribute; full form product for strings of <= 2 atoms (thorough: 3), <= 1 deviation for 3-atom strings; non-trivial = non-default storage form or multi-atom string; distinct by file bytes");
+    // strings behind shared-string indices past the 16-bit boundary (families shared with C02 / C03)
+    rayon::join(|| crate::props::c02::large_sst(rep), || crate::props::c03::large_sst(rep));
+    rep.rule("strings = every concatenation of <= 3 atoms from {a, space, two spaces, tab, LF, &, <, >, \", ', ]]>, e-acute, euro, U+1F600} plus \"\" and one 32767-character string; xls / xlsb tables of 255..66000 strings referenced past the 8- and 16-bit index boundaries; storage forms: xlsx shared/inline/formula-string x entities/decimal/hex character references/CDATA x {plain t, 1-3 rich runs, rPh + phoneticPr} x empty <si/> before/between x namespace prefix; xlsb Isst (plain/rich/phonetic)/St/FmlaString; xls SST (plain/rich/ExtRst)/LABEL/STRING x 8/16-bit; ods content with text:s variants, literal spaces, spans, paragraphs, or string-value attribute; full form product for strings of <= 2 atoms (thorough: 3), <= 1 deviation for 3-atom strings; non-trivial = non-default storage form or multi-atom string; distinct by file bytes");
     rep.assume("a cell holding the empty string may read as Empty or String(\"\"); in ods element content a tab is the text:tab element");
     let mut strings: Vec<String> = vec![String::new()];
     for a in ATOMS { strings.push(a.to_string()); }
@@ -216,6 +218,7 @@ pub fn check(rep: &Report) {
 pub fn replay(path: &str) -> i32 {
     let Ok(s) = std::fs::read_to_string(path) else { return 2 };
     let v: serde_json::Value = serde_json::from_str(&s).unwrap();
+    if v.get("large_sst").is_some() { return if v["files"][0].as_str().unwrap_or("").ends_with("xlsb") { crate::props::c03::replay(path) } else { crate::props::c02::replay(path) }; }
     let choices: Vec<u32> = v["choices"].as_array().unwrap().iter().map(|x| x.as_u64().unwrap() as u32).collect();
     let fmt = v["format"].as_str().unwrap().to_string();
     let st = v["string"].as_str().unwrap().to_string();
